@@ -10,4 +10,5 @@ def main (args : List String) : IO UInt32 := do
   match args with
   | ["lock"] => statefulLoop stdin stdout lockStep ({} : LockDrv); return 0
   | ["crypto"] => statelessLoop stdin stdout cryptoStep; return 0
+  | ["pipeline"] => statelessLoop stdin stdout pipelineStep; return 0
   | _ => IO.eprintln "usage: bmd_conc <lock|pipeline|crypto>"; return 2
